@@ -169,7 +169,7 @@ contract('cmdline.MatcherMixin.addValue', params=dict(_base.params), modifies=li
 
 contract('matcher.SchemaMatcher.__init__', params={'schema': 'Ref[info.SectionType]'},
          requires=[Clause('invariant_of(schema)', label='RI-of-the-schema')],
-         ensures=[Clause('self.type == schema and self.info == schema', label='matcher-for-the-schema'),
+         ensures=[Clause('self.type == schema and self.info == schema and not self.finished', label='matcher-for-the-schema'),
                   Clause('fresh(self.handlers) and len(self.handlers.items) == 0', carries='C13,C16',
                          label='fresh-handler-list'),
                   Clause('len(keys(self._sectionnames)) == 0', label='no-names-used-yet'),
@@ -180,7 +180,7 @@ CBS0 = 'bag_split(self.clopts, self.schema.keytype, 0, {}, [])'
 contract('cmdline.ExtendedConfigLoader.createSchemaMatcher', returns='Ref[matcher.SchemaMatcher]', fresh_result=True,
          requires=[Clause('invariant_of(self.schema)', label='RI-of-the-schema')],
          ensures=[Clause('fresh(result) and result.type == self.schema and len(result.handlers.items) == 0 and '
-                         'fresh(result.handlers)', carries='C13', label='new-matcher-for-the-schema'),
+                         'fresh(result.handlers) and not result.finished', carries='C13', label='new-matcher-for-the-schema'),
                   Clause("implies(len(self.clopts) == 0, isclass(result, 'matcher.SchemaMatcher'))", carries='C14',
                          label='no-overrides-plain-matcher'),
                   Clause("implies(len(self.clopts) > 0, isclass(result, 'cmdline.ExtendedSchemaMatcher') and "
@@ -235,7 +235,8 @@ CONSUMED = Clause('len(self.optionbag.sectitems) == 0 and len(keys(self.optionba
 contract('cmdline.ExtendedSectionMatcher.finish', returns='Ref[matcher.SectionValue]', fresh_result=True,
          requires=[contracts.matcher.NOT_FINISHED],
          modifies=['self._values', 'self.handlers.items', 'self.optionbag.keypairs', 'self.finished'],
-         ensures=[CONSUMED] + list(contracts.matcher.VALUE_OF),
+         ensures=[CONSUMED, Clause(contracts.matcher.HANDLER_ENTRIES, carries='C16',
+                                   label='one-handler-entry-per-handler-bearing-child-appended')] + list(contracts.matcher.VALUE_OF),
          raises=[Raise('ZConfig.ConfigurationError+', carries='C14,C07', label='override-or-section-rejected')])
 contract('cmdline.ExtendedSchemaMatcher.finish', returns='Opaque[PyVal]',
          requires=[contracts.matcher.NOT_FINISHED],
@@ -243,3 +244,42 @@ contract('cmdline.ExtendedSchemaMatcher.finish', returns='Opaque[PyVal]',
          ensures=[CONSUMED],
          raises=[Raise('ZConfig.ConfigurationError+', carries='C14,C07', label='override-or-text-rejected'),
                  Raise('ValueError', label='the schema datatype itself raised (passes through unchanged, C07)')])
+
+# ---- the public entry points (loader.py module level): schema + path / file + overrides -> configuration ------------
+import contracts.loader as _L
+SPECS_OK = 'forall(lambda j: implies(0 <= j and j < len(overrides), not (%s)))' % BAD_SPEC.replace('spec', 'overrides[j]')
+contract('loader._get_config_loader', params={'schema': 'Ref[info.SectionType]', 'overrides': 'Seq[str]'},
+         returns='Ref[loader.ConfigLoader]', fresh_result=True,
+         ensures=[Clause('fresh(result) and result.schema == schema', carries='C13,C14', label='a-new-loader-for-the-given-schema'),
+                  Clause("implies(len(overrides) == 0, isclass(result, 'loader.ConfigLoader'))", carries='C14',
+                         label='no-overrides-plain-loader'),
+                  Clause("implies(len(overrides) > 0, isclass(result, 'cmdline.ExtendedConfigLoader') and "
+                         "len(cast(result, 'cmdline.ExtendedConfigLoader').clopts) == len(overrides))", carries='C14',
+                         label='every-specifier-recorded'),
+                  Clause(SPECS_OK, carries='C14', label='every-specifier-has-an-equals-sign-and-no-empty-path-component')],
+         raises=[Raise('ZConfig.ConfigurationSyntaxError', when='not (%s)' % SPECS_OK, carries='C07,C14', label='malformed-specifier')],
+         loops=[Loop(invariant=[Clause("isclass(loader, 'cmdline.ExtendedConfigLoader') and loader.schema == schema and "
+                                       "len(cast(loader, 'cmdline.ExtendedConfigLoader').clopts) == _i0"),
+                                Clause('forall(lambda j: implies(0 <= j and j < _i0, not (%s)))' % BAD_SPEC.replace('spec', 'overrides[j]'))],
+                     locals={'opt': 'str'}, modifies=['+cmdline.ExtendedConfigLoader.clopts'])])
+_OPEN = _L.UNCHANGED_OPEN
+contract('loader.loadConfig', params={'schema': 'Ref[info.SectionType]', 'url': 'str', 'overrides': ('Seq[str]', '()')},
+         returns='Opaque[PyVal]', requires=[Clause('invariant_of(schema)', label='RI-of-the-schema')],
+         modifies=['GHOST.open_files', '*Sink.events', '+loader.ConfigLoader.*', '+Sink.finished'] + list(_L.LOADER_SCHEMA),
+         ensures=[_OPEN],
+         raises=[Raise('ZConfig.ConfigurationError+', then=[_OPEN], carries='C07,C19', label='rejected'),
+                 Raise('OSError', then=[_OPEN], carries='C19', label='io-error-while-reading (environment fault)'),
+                 Raise('ValueError', then=[_OPEN], label='a datatype function itself raised, or a malformed top-level URL')])
+_CLOSED = ('not file.is_open and GHOST.open_files == old(GHOST.open_files) - (1 if old(file.is_open) else 0)')
+contract('loader.loadConfigFile',
+         params={'schema': 'Ref[info.SectionType]', 'file': 'Ref[File]', 'url': ('Opt[str]', 'None'), 'overrides': ('Seq[str]', '()')},
+         returns='Opaque[PyVal]', requires=[Clause('invariant_of(schema)', label='RI-of-the-schema')],
+         modifies=['file.is_open', 'file.lines', 'GHOST.open_files', '*Sink.events', '+loader.ConfigLoader.*', '+Sink.finished'] + list(_L.LOADER_SCHEMA),
+         ensures=[Clause(_CLOSED, carries='C19', label='callers-file-closed')],
+         raises=[Raise('ZConfig.ConfigurationError+',
+                       then=[Clause('(%s) or (not (%s) and file.is_open == old(file.is_open) and '
+                                    'GHOST.open_files == old(GHOST.open_files))' % (_CLOSED, SPECS_OK), carries='C19',
+                                    label='callers-file-closed-on-failure-or-untouched-when-an-override-specifier-is-malformed')],
+                       carries='C07,C19', label='rejected'),
+                 Raise('OSError', then=[Clause(_CLOSED, carries='C19')], label='io-error-while-reading (environment fault)'),
+                 Raise('ValueError', then=[Clause(_CLOSED, carries='C19')], label='a datatype function itself raised')])
